@@ -9,21 +9,46 @@ TB = "trusted: Lean kernel + {propext, Classical.choice, Quot.sound}; "
 
 PROPS = {
     "C08": {
-        "harness": "c08", "level": "proof", "category": "proof", "design_ref": "DESIGN.md 5/C08, 4.7", "translators": [],
-        "technique": "Lean 4 proof (two-pointer merges decode to pointwise operations; sparse metric = dense metric on list-encoded vectors, over any ordered ring/field) + exact correspondence of the merge kernels + real sparse vs real dense kernels on all support patterns",
+        "harness": "c08", "level": "proof", "category": "proof", "design_ref": "DESIGN.md 5/C08, 4.7", "translators": ["kernels"],
+        "technique": "Lean 4 proof (two-pointer merges decode to pointwise operations; sparse metric = dense metric on list-encoded vectors, over any ordered ring/field) "
+                     "+ tie BY THEOREM for the four two-pointer kernels sparse_sum / sparse_mul / sparse_dot_product / fast_intersection_size: their source text is "
+                     "translated to Lean on every run (harness/translate_kernels.py -> Gen/Kernels.lean) and the translation is proved memory safe and equal to the "
+                     "hand-written model for every input; the translator is validated by executing its output against the numba kernels on every run "
+                     "+ exact correspondence of the remaining merge kernels + real sparse vs real dense kernels on all support patterns",
         "text": "Lean theorems over a literal model of sparse.py's merge kernels (sparse_sum/diff/mul with dropped zeros and tail loops, "
                 "sparse_dot_product with its early returns, arr_union/intersect, fast_intersection_size): merge_decode / merge_wf / merge_enc "
                 "(every support relation at once), dot_product_agrees, intersection_size_agrees, and sparse_X (enc x) (enc y) [n] = dense_X x y "
                 "for the Minkowski family, hamming, the binary family with the n_features closed-form corrections, cosine parts, hellinger sums, "
                 "braycurtis, canberra and correlation's implicit-zero accounting (where defect D17 lived), all before the final sqrt; enc provably "
-                "satisfies the well-formedness precondition. The model is compared exactly with the real merge kernels on all support patterns "
+                "satisfies the well-formedness precondition. TIE TO THE CODE, by theorem, for sparse_sum, sparse_mul, sparse_dot_product and "
+                "fast_intersection_size: on every run harness/translate_kernels.py re-reads the source text of these kernels in sparse.py and regenerates "
+                "Gen/Kernels.lean (syntax-directed translation into the Option monad: every array load/store is bounds-checked and answers none outside the "
+                "array, every loop is a fuel-bounded recursion); kernel_sparse_sum_refines, kernel_sparse_mul_refines, kernel_sparse_dot_product_refines, "
+                "kernel_fast_intersection_size_refines prove that for EVERY pair of rows (parallel arrays of equal length, non-negative indices, any carrier "
+                "with 0, decidable equality, + and *; sorted or not) and fuel >= n1+n2+1 the translated kernel performs no out-of-bounds access (sparse_sum: "
+                "np.zeros(n1+n2) buffers, invariant nnz <= i1+i2, final [:nnz] slices), terminates and returns exactly the model's result; "
+                "kernel_sparse_dot_product_empty_oob: with an empty operand the translated kernel reads ind[0] out of bounds (none) - the same answer as the model; "
+                "kernel_merge_decode / kernel_enc_agrees restate merge_decode, merge_enc, dot_product_agrees and intersection_size_agrees on the translated "
+                "source. A change to one of these kernels changes Gen/Kernels.lean and the proofs are re-checked against it (mutation self-test: `<` -> `<=`, a "
+                "dropped `if val != 0`, `i1 < limit1` -> `<=` each break the build; renaming a local does not). The remaining kernels (sparse_diff, dense_union, "
+                "arr_union, arr_intersect) and all 8 again are compared exactly with the model on all support patterns "
                 "for dim <= 5 with small-integer values (cancellations to 0) and the real sparse metrics are compared with the real dense "
                 "metrics for every name in both tables (n_features / p / ground metric supplied; union of supports for JS / symmetric KL)",
-        "note": TB + "float rounding is outside the theorems (ordered ring/field); sqrt/log final steps, kantorovich, wasserstein_1d, non-integer minkowski p "
-                     "and the JS/KL bodies are compared on real kernels only; rows < 65536 entries (uint16 cursors); CSR rows sorted, no stored zeros",
-        "explanation": "theorems for all support patterns and values; exact kernel correspondence; real sparse vs dense on exhaustive small patterns",
+        "note": TB + "the translator harness/translate_kernels.py (numba subset -> Lean; unsupported syntax omits the kernel and breaks the proof), validated on "
+                     "every run by executing the translated kernels in the native driver (gk_sum, gk_mul, gk_dot, gk_isect) on every generated case plus "
+                     "ill-formed rows (unsorted, duplicate indices, stored zeros) and comparing exactly with the numba kernels (translated-kernel:<name>); the "
+                     "translation computes in unbounded Int and an abstract carrier: "
+                     "float rounding is outside the theorems (ordered ring/field; the refinement theorems use no arithmetic law, only decidable `== 0`); "
+                     "sqrt/log final steps, kantorovich, wasserstein_1d, non-integer minkowski p "
+                     "and the JS/KL bodies are compared on real kernels only; rows < 65536 entries (uint16 cursors); CSR rows sorted, no stored zeros "
+                     "(needed by the *_agrees / merge_* theorems, not by the refinement theorems); sparse_diff, dense_union, arr_union, arr_intersect are tied "
+                     "to the model by sampled exact comparison only",
+        "explanation": "theorems for all support patterns and values; four merge kernels tied to their source text by theorem (translation re-generated and "
+                       "re-proved each run, translator validated by execution against numba); exact kernel correspondence; real sparse vs dense on exhaustive small patterns",
         "assumptions": COMMON_ASSUMPTIONS + ["sparse rows have strictly increasing indices and no stored zeros (enc_wf; scipy canonical CSR)",
-                                             "empty operands of sparse_dot_product are not generated (out-of-bounds read in the kernel: memory safety is outside the model)"],
+                                             "empty operands of sparse_dot_product are not generated (out-of-bounds read in the kernel, proved for the translated source: kernel_sparse_dot_product_empty_oob)",
+                                             "harness/translate_kernels.py renders the numba semantics of the four two-pointer kernels faithfully (int cursors as unbounded Int, no bounds checks = none; "
+                                             "validated by execution against numba on every run, not proved)"],
     },
     "C11": {
         "harness": "c11", "level": "proof", "category": "proof", "design_ref": "DESIGN.md 5/C11, 4.1",
